@@ -48,13 +48,22 @@ def real_parser():
         p = hotxlfp.Parser()
         for k, v in VARS.items():
             p.set_variable(k, v)
-        p.set_function('ID', lambda x: x)
+        # the host resolves references by evaluating further formulas ON THE SAME PARSER while the outer
+        # evaluation is in progress (a spreadsheet whose cells hold formulas): leaves are re-entrant
+        def ident(x):
+            p.parse('2*3+1')
+            return x
+        p.set_function('ID', ident)
 
         def on_cell(cell, setter):
             for lab, v in CELLS.items():
                 if cell.label == lab.upper():
-                    setter(v)
+                    setter(p.parse('%d+0' % v)['result'])
         p.on('callCellValue', on_cell)
+
+        def on_var(name, setter):
+            p.parse('1<2')
+        p.on('callVariable', on_var)
         _rp[0] = p
     return _rp[0]
 
